@@ -56,6 +56,23 @@ def main():
         mods2, assumptions = res
         if proof is None and not args.no_proof:
             proof = common.prove(mods2, args.tier)
+        # regression corpus: minimised inputs of past failures (repaired defects) are re-run on every check
+        import glob
+        from . import replay
+        for path in sorted(glob.glob(os.path.join(common.VERIF, 'corpus', f'{pid}-*.json'))):
+            try:
+                payload = json.load(open(path))
+            except Exception:
+                continue
+            if 'case' not in payload:
+                continue
+            report.count('corpus_inputs')
+            rc = replay.run(pid, path, quiet=True)
+            if rc == 2:
+                raise common.HarnessError(f'corpus input {path} could not be replayed')
+            if rc == 1:
+                report.violations.append((f'corpus input {os.path.basename(path)} fails again',
+                                          {**payload, 'what': 'a repaired defect is back: ' + str(payload.get('what'))}))
         return report.finish(proof, assumptions)
     except common.HarnessError as e:
         print(f'HARNESS-ERROR {pid}: {e}', file=sys.stderr)
